@@ -82,6 +82,7 @@ type recBackend struct {
 	inflight int32
 	lastProd int64                             // UpdatedAt of the last state handed to the table
 	failAt   map[int]bool                      // call ordinals that must fail
+	failKind string                            // the next call of this kind must fail (once)
 	onCreate func(opts *pokerface.GameOptions) // observe the options of CreateGame
 	fixDeck  func(gs *pokerface.GameState)     // make the deck reproducible
 	inCreate func()                            // run inside CreateGame (before it returns)
@@ -98,6 +99,10 @@ func (b *recBackend) do(kind string, f func() (*pokerface.GameState, error)) (*p
 	b.mu.Lock()
 	ord := len(b.calls)
 	fail := b.failAt[ord]
+	if b.failKind != "" && b.failKind == kind {
+		fail = true
+		b.failKind = ""
+	}
 	b.mu.Unlock()
 	var gs *pokerface.GameState
 	var err error
@@ -137,6 +142,9 @@ func (b *recBackend) CreateGame(opts *pokerface.GameOptions) (*pokerface.GameSta
 	}
 	return b.do("CreateGame", func() (*pokerface.GameState, error) {
 		gs, err := b.inner.CreateGame(opts)
+		if err == nil && b.fixDeck != nil {
+			b.fixDeck(gs)
+		}
 		if err == nil && b.inCreate != nil {
 			b.inCreate()
 		}
@@ -206,11 +214,80 @@ type Drv struct {
 }
 
 func NewDrv(setting pt.TableSetting, continueInterval int) (*Drv, error) {
+	return NewDrvWith(setting, continueInterval, nil)
+}
+
+// startedBackend: a game backend that names the betting event "Started" (as the statistics code of the
+// table expects, game_statistics.go validateGameStatisticGameState) instead of pokerface v0.1.10's
+// "RoundStarted".  GameBackend is the table's documented extension point for other hand engines.
+type startedBackend struct{ inner pt.GameBackend }
+
+func relabel(gs *pokerface.GameState, from, to string) *pokerface.GameState {
+	if gs == nil {
+		return nil
+	}
+	data, _ := json.Marshal(gs)
+	var cp pokerface.GameState
+	json.Unmarshal(data, &cp)
+	if cp.Status.CurrentEvent == from {
+		cp.Status.CurrentEvent = to
+	}
+	return &cp
+}
+func (b *startedBackend) out(gs *pokerface.GameState, err error) (*pokerface.GameState, error) {
+	return relabel(gs, "RoundStarted", "Started"), err
+}
+func in(gs *pokerface.GameState) *pokerface.GameState { return relabel(gs, "Started", "RoundStarted") }
+func (b *startedBackend) CreateGame(o *pokerface.GameOptions) (*pokerface.GameState, error) {
+	return b.out(b.inner.CreateGame(o))
+}
+func (b *startedBackend) ReadyForAll(gs *pokerface.GameState) (*pokerface.GameState, error) {
+	return b.out(b.inner.ReadyForAll(in(gs)))
+}
+func (b *startedBackend) PayAnte(gs *pokerface.GameState) (*pokerface.GameState, error) {
+	return b.out(b.inner.PayAnte(in(gs)))
+}
+func (b *startedBackend) PayBlinds(gs *pokerface.GameState) (*pokerface.GameState, error) {
+	return b.out(b.inner.PayBlinds(in(gs)))
+}
+func (b *startedBackend) Next(gs *pokerface.GameState) (*pokerface.GameState, error) {
+	return b.out(b.inner.Next(in(gs)))
+}
+func (b *startedBackend) Pay(gs *pokerface.GameState, c int64) (*pokerface.GameState, error) {
+	return b.out(b.inner.Pay(in(gs), c))
+}
+func (b *startedBackend) Fold(gs *pokerface.GameState) (*pokerface.GameState, error) {
+	return b.out(b.inner.Fold(in(gs)))
+}
+func (b *startedBackend) Check(gs *pokerface.GameState) (*pokerface.GameState, error) {
+	return b.out(b.inner.Check(in(gs)))
+}
+func (b *startedBackend) Call(gs *pokerface.GameState) (*pokerface.GameState, error) {
+	return b.out(b.inner.Call(in(gs)))
+}
+func (b *startedBackend) Allin(gs *pokerface.GameState) (*pokerface.GameState, error) {
+	return b.out(b.inner.Allin(in(gs)))
+}
+func (b *startedBackend) Bet(gs *pokerface.GameState, c int64) (*pokerface.GameState, error) {
+	return b.out(b.inner.Bet(in(gs), c))
+}
+func (b *startedBackend) Raise(gs *pokerface.GameState, c int64) (*pokerface.GameState, error) {
+	return b.out(b.inner.Raise(in(gs), c))
+}
+func (b *startedBackend) Pass(gs *pokerface.GameState) (*pokerface.GameState, error) {
+	return b.out(b.inner.Pass(in(gs)))
+}
+
+func NewDrvWith(setting pt.TableSetting, continueInterval int, wrap func(pt.GameBackend) pt.GameBackend) (*Drv, error) {
 	d := &Drv{max: setting.Meta.TableMaxSeatCount, rule: setting.Meta.Rule, autoSetup: true}
 	d.be = &recBackend{inner: pt.NewNativeGameBackend(), failAt: map[int]bool{}}
+	var be pt.GameBackend = d.be
+	if wrap != nil {
+		be = wrap(d.be)
+	}
 	opts := pt.NewTableEngineOptions()
 	opts.GameContinueInterval = continueInterval
-	d.te = pt.NewTableEngine(opts, pt.WithGameBackend(d.be))
+	d.te = pt.NewTableEngine(opts, pt.WithGameBackend(be))
 	d.te.OnTableUpdated(func(t *pt.Table) {
 		ev := TEvent{Kind: "updated", Status: string(t.State.Status)}
 		if t.State.GameState != nil {
@@ -393,7 +470,7 @@ func (d *Drv) stableNow() (stable bool) {
 				return true // nobody is asked: nothing will ever happen by itself
 			}
 			return !all
-		case "RoundStarted":
+		case "RoundStarted", "Started":
 			return true
 		default:
 			return false
